@@ -68,11 +68,11 @@ def reverse_chooser(site, items):
 
 
 def run_traced(form_list, conf, request, field_names=(), user=None, chooser=None, mode="real",
-               snap="full", tid=0, body=None, meta=None, preseed=None, max_events=200000, strict=False):
+               snap="full", tid=0, body=None, meta=None, preseed=None, max_events=200000, strict=False, names=(), store=None):
     """one traced solve -> trace dict (events + header) and the result summary"""
     from habutax.inputs import InputStore
     from habutax.solver import Solver
-    store = InputStore(conf)
+    store = InputStore(conf) if store is None else store
     if chooser is not None:
         set_chooser(chooser)
     try:
@@ -81,12 +81,26 @@ def run_traced(form_list, conf, request, field_names=(), user=None, chooser=None
             if preseed:
                 preseed(solver)
             tr.attach(solver, form_list)
-            solved, exc = tr.run_solve(request, field_names)
+            tr.names.update(names)          # every name the program can mention belongs in the catalogue header
+            overflow = False
+            try:
+                solved, exc = tr.run_solve(request, field_names)
+            except TracerBroken:
+                if not tr.overflow:
+                    raise
+                # the solve exceeded the event budget: a finite, rejected trace instead of a hang (C06)
+                overflow = True
+                solved, exc = None, RuntimeError("work bound exceeded")
+                tr.request, tr.field_names = list(request), list(field_names)
+                tr.depth, tr.cur = 0, None
+                tr.events = tr.events[:max_events]
+                tr.events.append({"ev": "overflow", "sc": tr.events[-1].get("sc") if tr.events else {}})
             trace = tr.trace(tid=tid, det=(chooser is None and strict), body=body, meta=meta)
+            trace["overflow"] = overflow
     finally:
         if chooser is not None:
             set_chooser(None)
-    res = result_of(solver, solved, exc)
+    res = result_of(solver, solved, exc) if not trace.get("overflow") else {"abort": "overflow"}
     return trace, res, solver
 
 
@@ -116,7 +130,7 @@ def validate_batch(traces, workdir, name="batch", timeout=1800, heap="6g"):
     """-> {tid: (consumed, total, err)}; raises MachineryError if TLC did not produce all verdicts"""
     path = os.path.join(workdir, name + ".json")
     with open(path, "w") as f:
-        json.dump({"traces": [{k: v for k, v in t.items() if k != "meta"} for t in traces]}, f)
+        json.dump({"traces": [{k: v for k, v in t.items() if k not in ("meta", "overflow")} for t in traces]}, f)
     cfgp = os.path.join(workdir, name + ".cfg")
     with open(cfgp, "w") as f:
         f.write("SPECIFICATION TraceSpec\nCHECK_DEADLOCK FALSE\n")
